@@ -50,7 +50,11 @@ class Ctx:
 
     def fresh_dir(self, name="sb"):
         d = os.path.join(self.workdir, name)
-        shutil.rmtree(d, ignore_errors=True)
+        for p in (d, d + ".old"):
+            if os.path.isdir(p) and not os.path.islink(p):
+                shutil.rmtree(p, ignore_errors=True)
+            elif os.path.lexists(p):
+                os.remove(p)
         os.makedirs(d)
         return d
 
@@ -61,6 +65,12 @@ class Ctx:
 
     def ev(self, *a):
         self.log.append(a)
+
+    def norm(self, obj):
+        """JSON text of obj with the run's (random) scratch path - also in its menu-id slug form - replaced."""
+        t = json.dumps(obj, sort_keys=True, default=repr)
+        wd = self.workdir
+        return t.replace(wd, "<WD>").replace(wd.strip("/").replace("/", "-"), "<WD>")
 
 
 def load_check(cid):
@@ -122,11 +132,11 @@ def _batch(args):
             res["events"] += ctx.events
             if ctx.nontrivial:
                 res["nontrivial"] += 1
-                res["keys"].add(ctx.key if ctx.key is not None else _rng.digest(ctx.log))
+                res["keys"].add(_rng.digest(ctx.norm(ctx.key if ctx.key is not None else ctx.log)))
             for f in ctx.findings:
                 res["violations"].append((i, f.signature, f.message))
             if want_digests or i < 64:
-                res["digests"][i] = _rng.digest([ctx.log, [(f.signature) for f in ctx.findings]])
+                res["digests"][i] = _rng.digest(ctx.norm([ctx.log, [(f.signature) for f in ctx.findings]]))
             if len(res["samples"]) < 1 and ctx.nontrivial:
                 res["samples"].append({"run": i, "scenario": check.summarize(sc) if hasattr(check, "summarize") else sc})
     finally:
